@@ -6,7 +6,8 @@ zz_verif_c07_test.go (TestVerifC07) and the kinds model runner r_c07.ml; (L) gro
 through {sub topic="new"} under a small maxSubscriberCount (implementation only).  The
 property's laws are evaluated on the IMPLEMENTATION's traces; the models are compared on the
 projection C07 reads (ctrl codes + acs, want/given/deleted per user in store and cache,
-attached sessions)."""
+attached sessions with their background flag).  Attachment table under bans: g_ban / g_attach_monitor
+(laws no-session-attached-without-join, evicted-session-notified), theorems in Sys/TopicAclC07BanF.v."""
 import json
 import os
 import re
@@ -315,6 +316,123 @@ def g_monitor(sc, views):
     return res
 
 
+
+# --------------------------------------------------------------------------- group part: attachment table under bans
+# (sessions of mixed kind: foreground and background {hi bkg=true}; 0..3 per user)
+
+BAN_ROLES = ["approver", "admin-d", "sharer", "member", "reader", "restricted", "wants-more", "pending", "stranger", "banned", "selfbanned"]
+NOJ_MODES = ["N", "RWP", "R", "RWPS", "RWPAS", "WP", "A"]
+
+
+def g_ban_setup(rng, sid, roles):
+    """like g_setup, but every user gets 0..3 sessions and every session a fixed kind (0 foreground, 1 background)"""
+    sc = T.Scn(sid)
+    n = len(roles) + 1
+    sc.nusers = n
+    auth = rng.choice([47, 47, 63, 15, 3])
+    sc.head.append("scn %s owner=1 auth=%d anon=0 ownerwant=255 ownergiven=255" % (sid, auth))
+    for i in range(1, n + 1):
+        sc.head.append("user %d acc=%d" % (i, rng.choice([47, 47, 63, 31, 15])))
+    for i, role in enumerate(roles):
+        wg = ROLES[role]
+        if wg is not None:
+            sc.head.append("subrow %d want=%d given=%d" % (i + 2, wg[0], wg[1]))
+    s = 0
+    sc.bkg = {}
+    style = rng.random()
+    for i in range(1, n + 1):
+        k = rng.choice([1, 1, 2, 3]) if i == 1 else rng.choice([0, 1, 1, 2, 2, 3])
+        for _ in range(k):
+            s += 1
+            sc.sessions[s] = i
+            sc.head.append("sess %d %d" % (s, i))
+            # some scenarios: background only; some: foreground only; most: mixed
+            sc.bkg[s] = 1 if style < 0.3 and i != 1 else 0 if style > 0.9 else rng.choice([0, 1])
+    sc.roles = roles
+    return sc
+
+
+def g_ban(ctx, count):
+    """users attached through sessions of mixed kind lose J (ban by an approver, self-ban, {del sub}, {leave unsub});
+    then they try to come back"""
+    rng = ctx.rng
+    res = []
+    for i in range(count):
+        roles = [rng.choice(BAN_ROLES) for _ in range(rng.choice([1, 2, 2, 3]))]
+        sc = g_ban_setup(rng, "b%d" % i, roles)
+        users = list(range(1, sc.nusers + 1))
+        withs = [u for u in users if sess_of(sc, u)]
+        ops = []
+
+        def sub(s, mode="-"):
+            return ("N", "sub", [s, mode, sc.bkg[s]])
+        for u in withs:
+            for s in sess_of(sc, u):
+                if rng.random() < 0.85:
+                    ops.append(sub(s))
+        for _ in range(rng.randint(2, 7)):
+            a = rng.choice(withs)
+            sa = rng.choice(sess_of(sc, a))
+            t = rng.choice(users)
+            r = rng.random()
+            if r < 0.35:      # ban by (someone who may be) an approver
+                ops.append(("N", "setsub", [sess_of(sc, rng.choice([1, 1, a]))[0], t, hx(rng.choice(NOJ_MODES))]))
+            elif r < 0.55:    # self-ban, through {set sub} or through {sub mode}
+                if rng.random() < 0.6:
+                    ops.append(("N", "setsub", [sa, rng.choice([0, a]), hx(rng.choice(NOJ_MODES))]))
+                else:
+                    ops.append(sub(sa, hx(rng.choice(NOJ_MODES))))
+            elif r < 0.67:
+                ops.append(("N", "delsub", [sess_of(sc, rng.choice([1, 1, a]))[0], t]))
+            elif r < 0.77:
+                ops.append(("N", "leave", [sa, 1 if rng.random() < 0.7 else 0]))
+            elif r < 0.87:    # come back / attach one more session
+                ops.append(sub(sa, rng.choice(["-", "-", hx("JRWP"), hx(gen_mode(rng))])))
+            elif r < 0.94:    # un-ban
+                ops.append(("N", "setsub", [sess_of(sc, 1)[0], t, hx(rng.choice(["JRWP", "JRWPS", "JRWPAS"]))]))
+            else:
+                ops.append(("N", rng.choice(["unload", "restart", "getsub"]), []))
+        ops = [(f, k, ([sess_of(sc, 1)[0]] if k == "getsub" and not a else a)) for f, k, a in ops]
+        sc.ops = ops
+        res.append(sc)
+    return res
+
+
+def g_attach_monitor(sc, views):
+    """the attachment table after every request, read from the implementation's state dump:
+    no-session-attached-without-join: a request that leaves the cached effective mode (want & given) of a user without J
+      (or removes his entry) leaves NO session of that user attached, whatever its kind;
+    evicted-session-notified: every session detached by somebody else's request (or by the user's other session) was
+      sent {ctrl 205}."""
+    res = []
+    prev = g_initial(sc)
+    for k, v in enumerate(views):
+        fault, kind, args = sc.ops[k]
+        a = sc.sessions.get(args[0]) if args else None
+        pusers = {u: bits(d["want"]) & bits(d["given"]) for u, d in prev.cusers.items()} if prev.loaded else {}
+        if v.loaded:
+            for sid, u in sorted(v.csess.items()):
+                e = bits(v.cusers[u]["want"]) & bits(v.cusers[u]["given"]) if u in v.cusers else 0
+                if e & J:
+                    continue
+                was = prev.loaded and sid in prev.csess
+                if was and pusers.get(u, 0) & J:
+                    res.append(("no-session-attached-without-join", k, "session %d of user %d stays attached after %s of user %s left the effective mode %s"
+                                % (sid, u, kind, a, mstr(e) if u in v.cusers else "(no entry)")))
+                # a session that BECOMES attached without J is reported by g_monitor (attached-without-join / banned-user-attached)
+        if prev.loaded and kind not in ("unload", "restart") and not fault.startswith("C"):
+            told = set(s for s, t in v.frames if t.startswith("ctrl 205"))
+            for sid, u in sorted(prev.csess.items()):
+                if v.loaded and sid in v.csess:
+                    continue
+                if kind == "leave" and args[0] == sid:
+                    continue      # the session detached itself and got the reply of its {leave}
+                if sid not in told:
+                    res.append(("evicted-session-notified", k, "session %d of user %d was detached by %s of user %s without {ctrl 205}" % (sid, u, kind, a)))
+        prev = v
+    return res
+
+
 G_OPS = {"sub", "setsub", "delsub", "leave"}
 
 
@@ -580,6 +698,18 @@ def k_monitor(sc, blocks):
                     if not g & J and s not in pt["sess"]:
                         res.append(("banned-user-attached" if kind == "sub" and u == a else "attached-without-join", k,
                                     "%s: session %d of user %d becomes attached, grant %s" % (tok, s, u, mstr(g))))
+            # the attachment table under bans, p2p and {sub new} groups (same laws as g_attach_monitor)
+            if tok[0] in "pg" and pt["cache"] is not None and kind != "unload":
+                told = set(s for s, f in b["frames"] if f.startswith("ctrl 205"))
+                for s, u in sorted(pt["sess"].items()):
+                    pe = pt["cache"].get(u, (0, 0, False))
+                    if t["cache"] is not None and s in t["sess"]:
+                        e = t["cache"].get(u, (0, 0, True))
+                        if (not (e[0] & e[1] & J) or e[2]) and pe[0] & pe[1] & J and not pe[2]:
+                            res.append(("no-session-attached-without-join", k, "%s: session %d of user %d stays attached after %s of user %s left the effective mode %s%s"
+                                        % (tok, s, u, kind, a, mstr(e[0] & e[1]), " (deleted)" if e[2] else "")))
+                    elif t["cache"] is not None and not (kind == "leave" and s == si) and s not in told:
+                        res.append(("evicted-session-notified", k, "%s: session %d of user %d was detached by %s of user %s without {ctrl 205}" % (tok, s, u, kind, a)))
             if tok[0] == "p":
                 x, y = (int(z) for z in tok[1:].split("."))
                 for where, rows, prows in places:
@@ -748,7 +878,7 @@ def run(ctx):
                     sc.nusers = sum(1 for l in sc.head if l.startswith("user "))
                     gs.append(sc)
         n = 1 if quick else 12
-        gs += g_matrix(ctx, 140 * n) + g_limit(ctx, 30 * n)
+        gs += g_matrix(ctx, 140 * n) + g_limit(ctx, 30 * n) + g_ban(ctx, 90 * n)
         gs += T.gen_scenarios(ctx, 70 * n, "perm", 0.0, prefix="gp") + T.gen_scenarios(ctx, 40 * n, "perm", 0.12, prefix="gf")
         ks += k_gen(ctx, 150 * n) + k_gen_limit(ctx, 30 * n)
 
@@ -774,7 +904,7 @@ def run(ctx):
             ctx.finish()
         for sc in gs:
             views = [View(b) for b in g_impl[sc.id]]
-            for law, k, detail in g_monitor(sc, views):
+            for law, k, detail in g_monitor(sc, views) + g_attach_monitor(sc, views):
                 fails.append(("G", sc, law, k, detail))
             for k, b in enumerate(g_impl[sc.id]):
                 if b["hang"]:
@@ -856,7 +986,8 @@ def run(ctx):
                     if rc2 != 0 or c.id not in im2 or len(im2[c.id]) != len(c.ops):
                         return False
                     c.sessions = sc.sessions
-                    return any(l == law for l, _, _ in g_monitor(c, [View(b) for b in im2[c.id]]))
+                    vs2 = [View(b) for b in im2[c.id]]
+                    return any(l == law for l, _, _ in g_monitor(c, vs2) + g_attach_monitor(c, vs2))
                 small.sessions = sc.sessions
                 small = shrink_ops(ctx, small, still_bad, tbox)
             else:
@@ -895,7 +1026,8 @@ def run(ctx):
     ctx.coverage.update({
         "evaluations": len(gs) + len(ks), "distinct_nontrivial": nt,
         "rule": "group part: actor (owner/approver/admin/sharer/member/reader/banned/self-banned/pending transferee/stranger/restricted) x target x mode-grammar "
-                "matrix with ban / leave / come-back, sharer invites with explicit mode, approver self-raise, subscriber-limit overflow, plus the perm-profile random "
+                "matrix with ban / leave / come-back, sharer invites with explicit mode, approver self-raise, subscriber-limit overflow, ban histories with 0-3 sessions per user "
+                "of mixed kind (foreground / background) under bans by approvers, self-bans, {del sub}, {leave unsub}, come-backs, plus the perm-profile random "
                 "histories of topiclib (a share with single store faults / crashes); kinds part: 3-5 accounts with assorted default access (one may be root), "
                 "requests sub / set-sub / leave / unload addressed as usrX, me, fnd, sys, raw fnd and raw p2p names (own, foreign, third-party); "
                 "groups created by {sub new} under maxSubscriberCount 2-4 with more candidates than places; non-trivial = at least one 200 reply",
